@@ -96,6 +96,13 @@ func embeddings(c c12Case) (value, discard map[string][]string) {
 		"iftail":     {"zzwrap = (c) -> if c {\n" + e + "\n}", "zzwrap(true)"},
 		"ifelsetail": {"zzwrap = (c) -> if c 0 else {\n" + e + "\n}", "zzwrap(false)"},
 	}
+	if c.Stmt && (strings.Contains(e, " = ") || strings.Contains(e, "for ")) {
+		// moving an assignment into a function changes what it assigns (a local
+		// instead of the global) and how later reads resolve: not the same program
+		for _, k := range []string{"tail", "tailblock", "whilefn", "forfn", "iftail", "ifelsetail"} {
+			delete(value, k)
+		}
+	}
 	if !c.Stmt {
 		for k, v := range map[string][]string{
 			"paren":     {"(" + e + ")"},
@@ -127,10 +134,10 @@ func embeddings(c c12Case) (value, discard map[string][]string) {
 			value["notcond"] = []string{"if !(" + e + ") false else true"}
 		case "string":
 			value["operand1"] = []string{"\"\" + (" + e + ")"}
-			value["operand2"] = []string{"(\"\" + (" + e + ") + \"\")[0:#(" + e + ")]"}
+			value["operand2"] = []string{"(\"\" + (" + e + ")) + \"\""}
 		case "array":
 			value["operand1"] = []string{"[] + (" + e + ")"}
-			value["operand2"] = []string{"([] + (" + e + ") + [])[0:#(" + e + ")]"}
+			value["operand2"] = []string{"([] + (" + e + ")) + []"}
 		}
 	}
 	discard = map[string][]string{
@@ -139,6 +146,9 @@ func embeddings(c c12Case) (value, discard map[string][]string) {
 		"loopbody": {"{\nzzw = 0\nwhile zzw < 1 {\n" + e + "\nzzw = zzw + 1\n}\n0\n}"},
 		"forbody":  {"{\nfor once <- fromto(0, 1) {\n" + e + "\n0\n}\n0\n}"},
 		"ifbody":   {"{\nif true {\n" + e + "\n}\n0\n}"},
+	}
+	if c.Stmt && (strings.Contains(e, " = ") || strings.Contains(e, "for ")) {
+		delete(discard, "fnfirst")
 	}
 	return
 }
